@@ -6,12 +6,42 @@ ROOT = os.path.dirname(os.path.dirname(os.path.abspath(__file__)))
 
 # id -> (technique, level text, level note, design ref)
 CLAIMED = {
+    "C01": ("rapid-generated Go programs executed natively (marker-carrying sources, reflective sinks) as ground truth vs reported taint flows; 4 configurations",
+            "Exploration: every source->sink flow that a native execution of a generated program exhibited was reported under eager/on-demand "
+            "(x field-sensitive unless excluded by a recorded finding); no absence claim beyond the explored programs and valuations.",
+            "Dynamic ground truth is an under-approximation (bounded programs, sampled valuations). Shapes matching the recorded known findings "
+            "(interface boxing then mutation, reachability aliasing, writes through globals, rotating recursion, field-sensitive mode) are excluded by construction and counted.",
+            "DESIGN.md §3 C01"),
+    "C02": ("same native ground truth with sanitizer (marker rewriting) and validator (approval log) semantics; rapid programs over all documented validator shapes",
+            "Exploration: every raw, unapproved source marker that reached a sink natively was reported although sanitizers/validators were configured.",
+            "Approval of any value containing a source's marker cancels the obligation for that execution (conservative); same exclusions as C01.",
+            "DESIGN.md §3 C02"),
+    "C05": ("metamorphic property test: same program under drawn option vectors vs default options (set equality / max-alarms law), generated programs and repository testdata",
+            "Exploration: reported pair sets were invariant under every explored option vector; the max-alarms subset/size/non-emptiness law held.",
+            "Relies on C06 (determinism) for the baseline; filters matching std packages are only used on import-free programs.",
+            "DESIGN.md §3 C05"),
+    "C06": ("metamorphic repetition: each generated program analysed R times in fresh states (map order and scheduling re-randomised), identical pair sets required",
+            "Exploration: no run-to-run difference on the explored programs; order dependences of low probability can escape (sampled, not enumerated).",
+            "The Go runtime's map-iteration randomisation and the scheduler are the only sources of perturbation.",
+            "DESIGN.md §3 C06"),
+    "C07": ("crash/budget fuzzing of all analysis entry points on 'wild' generated programs in a killable child process",
+            "Exploration: every entry point returned (no panic, no process death, within budget) on the explored programs; divergence is only suspected through budgets.",
+            "Steps named by recorded findings (field-sensitive taint; closure self-application) are excluded and counted.",
+            "DESIGN.md §3 C07"),
     "C10": ("rapid property test against a reference model (0/1 spec matrices vs reported flows), exhaustive matrices in thorough tier",
             "Exploration: every generated (signature, call form, function/interface spec matrix, independently drawn body) "
             "case reported exactly the flows the matrix lists; no absence claim beyond the explored cases.",
             "Trusts the in-process SSA loader to equal the documented loader on import-free programs; flows implied only by the "
             "transitive closure of listed argument flows are not judged.",
             "DESIGN.md §3 C10"),
+    "C16": ("reference-model comparison: explicit-state enumeration of (block, defer stack) on the SSA CFG vs defers.AnalyzeFunction; rapid sampling + exhaustive small bodies",
+            "Exploration (exhaustive for bodies of <= 3/4 statement nodes of the grammar): boundedness and exact stack sets agreed with the model on every body.",
+            "The model works on the same SSA CFG the tool sees (x/tools SSA builder trusted).",
+            "DESIGN.md §3 C16"),
+    "C17": ("invariant checking (I1-I4) over every inter-procedural graph built for generated and testdata programs, eager and on-demand",
+            "Exploration: in/out mirror, call-site, closure and global-location invariants held on every graph inspected.",
+            "Graphs are inspected after the analysis returns (public accessors).",
+            "DESIGN.md §3 C17"),
 }
 
 PENDING_REASON = "check not built yet in this session (work in progress; see DESIGN.md §5 build order)"
